@@ -1,0 +1,109 @@
+//go:build verif
+
+package sqlc
+
+import (
+	"context"
+	"database/sql"
+	"encoding/json"
+	"fmt"
+	"testing"
+	"time"
+
+	"github.com/gotid/god/internal/verifdrv"
+	"github.com/gotid/god/internal/verifsql"
+	"github.com/gotid/god/lib/breaker"
+	"github.com/gotid/god/lib/logx"
+	"github.com/gotid/god/lib/store/sqlx"
+)
+
+type verifC11Case struct {
+	T string `json:"t"` // tx
+	verifsql.TxCase
+}
+
+func verifC11Sentinel(err error) string {
+	switch err {
+	case breaker.ErrServiceUnavailable:
+		return "unavailable"
+	case sql.ErrNoRows:
+		return "notfound"
+	}
+	return ""
+}
+
+func verifC11Ops(s sqlx.Session) verifsql.Ops {
+	return verifsql.Ops{
+		Exec: func(q string) error {
+			_, err := s.Exec(q)
+			return err
+		},
+		PrepExec: func(q string) error {
+			st, err := s.Prepare(q)
+			if err != nil {
+				return fmt.Errorf("verif: prepare failed: %v", err)
+			}
+			defer st.Close()
+			_, err = st.Exec()
+			return err
+		},
+		Query: func(q string) error {
+			var x int64
+			return s.QueryRow(&x, q)
+		},
+	}
+}
+
+// TestVerifDriverC11 runs C11 transaction scripts (driver faults with kinds x body script x log
+// switches) through sqlc.CachedConn.Transact / TransactCtx on the recording SQL driver.
+func TestVerifDriverC11(t *testing.T) {
+	logx.Disable()
+	verifdrv.Run(t, func(raw json.RawMessage) any {
+		var c verifC11Case
+		if err := json.Unmarshal(raw, &c); err != nil {
+			return map[string]any{"error": err.Error()}
+		}
+		if c.T != "tx" {
+			return map[string]any{"error": fmt.Sprintf("unsupported case type %q", c.T)}
+		}
+		db, rec := verifsql.Open(c.TxCase)
+		defer db.Close()
+		cc := NewConnWithCache(sqlx.NewConnFromDB(db), nil) // Transact never touches the cache
+
+		threshold := 500 * time.Millisecond
+		if c.Slow {
+			threshold = -1
+		}
+		restore := sqlx.VerifSetSwitches(true, true, threshold)
+		defer restore()
+		switch c.Log {
+		case 1:
+			sqlx.DisableStmtLog()
+		case 2:
+			sqlx.DisableLog()
+		}
+
+		var obs verifsql.BodyObs
+		body := func(s sqlx.Session) error { return verifsql.RunBody(c.TxCase, rec, verifC11Ops(s), &obs) }
+		var err error
+		escaped, pval := verifdrv.Catch(func() {
+			if c.API == "cachedctx" {
+				err = cc.TransactCtx(context.Background(), func(_ context.Context, s sqlx.Session) error { return body(s) })
+			} else {
+				err = cc.Transact(body)
+			}
+		})
+		out := map[string]any{"err": verifsql.ErrInfo(err, verifC11Sentinel), "calls": rec.Calls, "escaped": nil,
+			"runs": obs.Runs, "seen": obs.Seen}
+		if rec.Calls == nil {
+			out["calls"] = []string{}
+		}
+		if obs.Seen == nil {
+			out["seen"] = []bool{}
+		}
+		if escaped {
+			out["escaped"] = pval
+		}
+		return out
+	})
+}
